@@ -109,6 +109,15 @@ CHECKS = {
         note="Trusted: the 15-line decoder, objdump as input source.",
         ref="DESIGN.md 4/C10",
     ),
+    "C06": dict(
+        cat="exploration",
+        technique="property-based testing (Hypothesis): $deref field combinations/spellings vs one-step perturbed candidate operands, rendered and real (ModRM/SIB through objdump); reference normaliser + component-wise oracle",
+        text="For drawn reference components and each present/absent field combination and spelling, one all-matches call decides 8-28 candidate instructions that are "
+        "one-step perturbations of the reference operand (same, one component changed incl. prefix/extension displacements, added/removed component, swapped, register, immediate, "
+        "other operand position), on rendered text and on real objdump output of encoded instructions. Expected matches come from the reference normaliser and component-wise equality.",
+        note="Trusted: reference normaliser/matcher, objdump and the encoder as input source. Negative displacement without 0x and segment/* operands are outside the statement.",
+        ref="DESIGN.md 4/C06",
+    ),
 }
 
 NOT_APPLICABLE = []
